@@ -371,12 +371,21 @@ def apply_price_rule(ctx, prog):
                 if m:
                     child[st['lhs']['l']] = int(m[0].group(1))
     from tmpl import local_defs, origin_locals
-    from mir import operand_places
+    from mir import operand_places, pl_fields
 
     def callee_kind(c):
+        # `costs` is the FnMut parameter of CostFn::cost (argument 3), reached through the local wrapper closure; `rows` is the
+        # closure whose body reads ExprAnalysis data `rows`
         recv = c.args[0]['pl']['l'] if c.args and c.args[0]['k'] != 'const' else None
-        names = {b.var_name(l) for l in origin_locals(b, recv, depth=4)} if recv is not None else set()
-        return 'costs' if 'costs' in names else 'rows' if 'rows' in names else 'other'
+        if recv is None:
+            return 'other'
+        if 3 in origin_locals(b, recv, depth=6):
+            return 'costs'
+        for n in prog.callee_bodies(c):
+            cb = prog.bodies.get(n)
+            if cb is not None and any(f.endswith('::rows') for _, st in cb.stmts() for pl in operand_places(st) for f in pl_fields(pl)):
+                return 'rows'
+        return 'other'
 
     def which_child(c):
         out = set()
@@ -402,8 +411,10 @@ def apply_price_rule(ctx, prog):
                 out += additive_leaves(payload['op']['pl']['l'], depth - 1)
         return out
     # the arm's result: the last f32 local assigned in the region that flows out (assigned from an Add at the end of the arm)
+    ret_src = {st['rv']['op']['pl']['l'] for _, st in b.stmts() if st['s'] == 'assign' and st['lhs']['l'] == 0 and not st['lhs']['p']
+               and st['rv'].get('rv') == 'use' and st['rv']['op']['k'] != 'const'}
     results = [st['lhs']['l'] for i in sorted(region) for st in b.blocks[i]['stmts'] if st['s'] == 'assign' and not st['lhs']['p']
-               and b.local_ty(st['lhs']['l']) == 'f32' and b.var_name(st['lhs']['l']) == 'c']
+               and st['lhs']['l'] in ret_src]
     if not ctx.anchor(R4, 'CostFn::cost: result of the Apply arm', results):
         return
     from mir import Call
